@@ -63,6 +63,13 @@ def derivative_monitors(run):
     for n in range(n_runs):
         kind = 'SE2' if n % 2 == 0 else 'SE3'
         a, b = rp(kind), rp(kind)
+        if n % 6 >= 4:
+            # two poses FAR from the origin and CLOSE to each other (geocentric / UTM-like coordinates, poses metres apart): the relative
+            # quantities are small differences of large numbers
+            d = B.DIM[kind]
+            base = np.array([rnd.choice([-1, 1]) * 10 ** rnd.uniform(4, 6.5) for _ in range(d)])
+            a[:d] = base
+            b[:d] = base + np.array([rnd.uniform(-10, 10) for _ in range(d)])
         cd = B.CDIM[kind]
         S = 1.0 + float(max(np.max(np.abs(np.asarray(a)[:B.DIM[kind]])), np.max(np.abs(np.asarray(b)[:B.DIM[kind]]))))
         pt = np.array([mag() for _ in range(B.DIM[kind])])
